@@ -152,6 +152,16 @@ def term(e, env, mutated=frozenset()):
         sc = e["scrut"]
         if sc.get("k") == "Call" and sc["args"]:
             return term(sc["args"][0], env, mutated)
+    if k == "Match":
+        sc = term(e["scrut"], env, mutated)
+        arms = []
+        for a in e["arms"]:
+            env2 = env.child()
+            bind_pattern(a["pat"], sc, env2)
+            pv = F.pat_variants(a["pat"])
+            label = "|".join(sorted(v for _, v in pv)) if pv else "_"
+            arms.append((label, term(a["body"], env2, mutated)))
+        return ("match", sc, tuple(arms))
     if k == "Ret":
         return ("ret", term(e["e"], env, mutated) if "e" in e else ("lit", "()"))
     return ("opaque", k, e.get("id"))
@@ -208,6 +218,8 @@ def short(t, depth=0):
         return f"{short(t[1])}[{short(t[2])}]"
     if k == "ret":
         return f"return {short(t[1])}"
+    if k == "match":
+        return "match " + short(t[1]) + " {" + ", ".join(f"{l} => {short(b)}" for l, b in t[2]) + "}"
     return f"<{t[1]}>"
 
 
